@@ -142,3 +142,27 @@ Lemma abort_leaves_root_listed :
   let m := snd (m_run_all (m_run mdb0 h_restore) MAbort) in
   has_rid 2 (roots_at (m_meta m) 3) = true /\ d_last (m_meta m) = None /\ m_status m 3 2 = 3.
 Proof. vm_compute. repeat split; reflexivity. Qed.
+
+(* ---------------- continuing with ordinary operation after an interrupted restore ---------- *)
+(* finalized local versions 1 and 2; a chunk of a checkpoint for version 3 whose nodes 1, 2
+   already exist locally and whose node 6 is new; the process dies, reopens, and then commits and
+   finalizes its OWN root for version 3.  The abandoned checkpoint root is still listed for
+   version 3 (the abort does not clean the roots metadata) with an EMPTY updated-nodes index
+   (badger.go:1073-1079), so discarding it at Finalize deletes nothing: every finalized root
+   stays readable.  (An index naming the chunk's nodes would delete the shared nodes 1 and 2.) *)
+Definition h_local : list mop :=
+  [MBase (OCommit 1 1 2 None [(1, 1); (2, 1)] [1; 2; 3] [] [3; 1; 2] []); MBase (OFinalize 1 [2]);
+   MBase (OCommit 2 1 3 (Some (1, 2)) [(3, 1)] [4; 5] [3] [5; 1; 2; 4] []); MBase (OFinalize 2 [3]);
+   MStart 3; MChunk 3 1 4 [(1, 1)] [1; 2; 6] [7; 6; 1; 2; 4; 8] []].
+
+Definition h_continue : list mop :=
+  [MBase (OCommit 3 1 5 (Some (2, 3)) [(4, 1)] [9; 10] [5] [10; 1; 2; 4; 9] []); MBase (OFinalize 3 [5])].
+
+Lemma restore_then_normal_operation_l :
+  let m1 := m_reopen (m_run mdb0 h_local) in
+  has_rid 4 (roots_at (m_meta m1) 3) = true /\ d_last (m_meta m1) = Some 2 /\
+  a_puts (aux_get 3 4 (b_aux (c_b (m_c m1)))) = [] /\
+  let m2 := m_run m1 h_continue in
+  d_last (m_meta m2) = Some 3 /\ has_rid 4 (roots_at (m_meta m2) 3) = false /\
+  m_status m2 3 5 = 1 /\ m_status m2 2 3 = 1 /\ m_status m2 1 2 = 1.
+Proof. vm_compute. repeat split; reflexivity. Qed.
